@@ -306,7 +306,9 @@ fn newer(rng: &mut Rng, ctx: &mut Ctx) {
             if l != bl { c.fail("C08", "frame data differs when known events carry extra trailing bytes"); }
             if start_json(&g.start) != start_json(&bg.start) { c.fail("C08", "Game Start fields differ when the block carries extra trailing bytes"); }
             if end_json(&g.end) != end_json(&bg.end) { c.fail("C08", "Game End fields differ when the block carries extra trailing bytes"); }
-            if g.metadata != bg.metadata { c.fail("C08", "metadata differs"); } }
+            if g.metadata != bg.metadata { c.fail("C08", "metadata differs"); }
+            // a version above the newest known one has every known field, at its known offset (C03 / C04 on both files)
+            check_frames(&r, bg, &mut c); check_frames(&r, g, &mut c); }
             (None, _) => c.fail("C08", format!("newer-version replay with longer payloads rejected: {}", l)), _ => c.fail("C08", "baseline newer-version replay rejected") }
         ctx.push(c);
         if r.end.is_some() {
